@@ -7,6 +7,7 @@ package simdisk
 import (
 	"fmt"
 	"os"
+	"sync"
 	"path/filepath"
 	"sort"
 	"strings"
@@ -97,6 +98,10 @@ func (a Access) String() string {
 
 // Mem is the in-memory disk.
 type Mem struct {
+	// mu makes the fileIO methods safe for concurrent use (gopar calls
+	// them from one goroutine today; should that change, a race report
+	// must point at gopar, not at the simulated disk)
+	mu    sync.Mutex
 	Files map[string][]byte
 	Dirs  map[string]bool
 	Cwd   string
@@ -266,6 +271,8 @@ func (m *Mem) parentErr(p string) syscall.Errno {
 
 // ReadFile implements gopar's fileIO.
 func (m *Mem) ReadFile(p string) ([]byte, error) {
+	m.mu.Lock()
+	defer m.mu.Unlock()
 	f, has := m.fault('R')
 	r := m.Resolve(p)
 	a := Access{Op: 'R', Path: p, Resolved: r}
@@ -325,6 +332,8 @@ func (m *Mem) ReadFile(p string) ([]byte, error) {
 
 // WriteFile implements gopar's fileIO (create-or-truncate).
 func (m *Mem) WriteFile(p string, data []byte) error {
+	m.mu.Lock()
+	defer m.mu.Unlock()
 	f, has := m.fault('W')
 	r := m.Resolve(p)
 	a := Access{Op: 'W', Path: p, Resolved: r, N: len(data), Data: append([]byte(nil), data...)}
@@ -398,6 +407,8 @@ func (m *Mem) WriteFile(p string, data []byte) error {
 // semantics of filepath.Glob(prefix+"*"+suffix) for metacharacter-free
 // prefixes: the star does not cross a path separator.
 func (m *Mem) FindWithPrefixAndSuffix(prefix, suffix string) ([]string, error) {
+	m.mu.Lock()
+	defer m.mu.Unlock()
 	f, has := m.fault('G')
 	a := Access{Op: 'G', Path: prefix + "*" + suffix}
 	if has && f.Kind == GlobEIO {
